@@ -58,6 +58,7 @@ type Row struct {
 	xmax   int64 // deleting / superseding (sub)transaction, 0 = none
 	locker int64 // top-level xid holding a row lock (FOR UPDATE), 0 = none
 	seq    int64 // physical insertion order (stands in for ctid / bigserial seq)
+	next   *Row  // version that superseded this one (valid while xmax is not aborted)
 }
 
 type txStatus uint8
@@ -80,6 +81,7 @@ type xact struct {
 	advisory  map[int64]int
 	savepoint string
 	conn      *connState
+	cseq      int64 // commit sequence number of a committed top-level transaction
 }
 
 // Hooks let a test own the schedule and inject faults at statement boundaries.
@@ -411,6 +413,38 @@ func (db *DB) visible(r *Row, cur *xact) bool {
 	return true
 }
 
+// committedAt: xid belongs to a transaction that committed no later than the snapshot.
+func (db *DB) committedAt(xid int64, snap int64) bool {
+	if db.effectiveStatus(xid) != txCommitted {
+		return false
+	}
+	x := db.xacts[xid]
+	return x == nil || x.top.cseq <= snap
+}
+
+// visibleSnap is READ COMMITTED statement visibility: a row version is seen
+// when it was created by a transaction committed before the statement began
+// (snap) or by an earlier statement of the current transaction, and not
+// deleted likewise. Versions created by the running statement itself (cur)
+// are not seen, versions it deleted still are (command-id rule): the main
+// query does not see the effects of its own data-modifying CTEs.
+func (db *DB) visibleSnap(r *Row, cur *xact, snap int64) bool {
+	curTop, curID := int64(-1), int64(-1)
+	if cur != nil {
+		curTop, curID = cur.top.id, cur.id
+	}
+	mine := func(xid int64) bool {
+		return xid != curID && db.topOf(xid) == curTop && db.ownLive(xid)
+	}
+	if !(db.committedAt(r.xmin, snap) || mine(r.xmin)) {
+		return false
+	}
+	if r.xmax != 0 && (db.committedAt(r.xmax, snap) || mine(r.xmax)) {
+		return false
+	}
+	return true
+}
+
 // ownLive: the sub-transaction xid (belonging to the current top transaction) has not been rolled back.
 func (db *DB) ownLive(xid int64) bool {
 	x := db.xacts[xid]
@@ -452,6 +486,7 @@ func (db *DB) endXact(x *xact, commit bool) {
 	if commit {
 		x.status = txCommitted
 		db.commitSeq++
+		x.cseq = db.commitSeq
 	} else {
 		x.status = txAborted
 	}
